@@ -253,8 +253,47 @@ def call_method(I, recv, name, argexprs, scope, frame, g, hint, e):
             return UNIT
         raise Unsupported("PrefixTree method " + name)
 
+    # ---------------- WBTreeSet (by contract)
+    if isinstance(recv, V.KeySet):
+        if name == "insert":
+            k = arg()
+            was = recv.contains_key(g, k)
+            recv.insert(g, k, UNIT)
+            return mkbool(-was)
+        if name == "contains":
+            return mkbool(recv.contains_key(g, arg()))
+        if name == "remove":
+            k = arg()
+            was = recv.contains_key(g, k)
+            recv.remove(g, k)
+            return mkbool(was)
+        if name == "iter":
+            return IterV([(p, k) for k, p in enumerate(recv.p)])
+        if name == "is_empty":
+            return mkbool(recv.is_empty())
+        if name == "len":
+            return recv.length()
+        if name == "clear":
+            recv.clear(g)
+            return UNIT
+        if name == "union":
+            return recv.union_with(I.deref(arg()), None)
+        if name == "difference":
+            return recv.difference_with(I.deref(arg()), lambda gg, k, a, b2: NONE)
+        raise Unsupported("WBTreeSet method " + name)
+
     # ---------------- maps
     if isinstance(recv, MapV):
+        if name == "union":
+            a = args()
+            other, fn = I.deref(a[0]), I.deref(a[1])
+            return recv.union_with(other, lambda gg, k, x, y: I.call_closure(fn, c.and2(g, gg), [k, x, y]))
+        if name == "difference":
+            a = args()
+            other, fn = I.deref(a[0]), I.deref(a[1])
+            return recv.difference_with(other, lambda gg, k, x, y: I.deref(I.call_closure(fn, c.and2(g, gg), [k, x, y])))
+        if name == "iter_mut":
+            return IterV([(recv.p[k], (k, recv.slot_ref(k))) for k in range(recv.U)])
         if name == "get":
             return recv.get(g, arg())
         if name == "get_mut":
@@ -267,7 +306,9 @@ def call_method(I, recv, name, argexprs, scope, frame, g, hint, e):
             a = args()
             return recv.insert(g, I.deref(a[0]), a[1])
         if name == "entry":
-            return EntryV(recv, arg())
+            k = arg()
+            occ = recv.contains_key(g, k)
+            return EnumV("Entry", {"Occupied": (occ, (EntryV(recv, k),)), "Vacant": (-occ, (EntryV(recv, k),))})
         if name in ("iter", "into_iter"):
             return IterV(recv.items())
         if name == "is_empty":
@@ -278,9 +319,30 @@ def call_method(I, recv, name, argexprs, scope, frame, g, hint, e):
             recv.clear(g)
             return UNIT
         raise Unsupported("map method " + name)
-    if isinstance(recv, EntryV):
+    if isinstance(recv, EnumV) and recv.ty == "Entry":
+        ent = recv.alts["Occupied"][1][0]
         if name == "or_default":
-            return recv.m.or_default(g, recv.key)
+            return ent.m.or_default(g, ent.key)
+        if name in ("or_insert_with", "or_insert"):
+            vac = c.and2(g, recv.alts["Vacant"][0])
+            if vac != F:
+                d = I.call_closure(arg(), vac, []) if name == "or_insert_with" else arg()
+                ent.m.insert(vac, ent.key, d)
+            elif argexprs:
+                pass
+            return ent.m.get_mut(g, ent.key).val
+        raise Unsupported("Entry method " + name)
+    if isinstance(recv, EntryV):
+        # OccupiedEntry / VacantEntry
+        if name in ("get_mut", "into_mut", "get"):
+            return recv.m.get_mut(g, recv.key).val
+        if name == "remove":
+            return recv.m.remove(g, recv.key).val
+        if name == "insert":
+            recv.m.insert(g, recv.key, arg())
+            return recv.m.get_mut(g, recv.key).val
+        if name == "key":
+            return recv.key
         raise Unsupported("Entry method " + name)
 
     if isinstance(recv, BoolV):
